@@ -124,6 +124,10 @@ pub struct History {
     /// allow a negotiation failure after ConnectionOpened (permitted by the Transport trait, not emitted by TCP)
     pub general: bool,
     pub listen: Vec<AddrSel>,
+    /// let the transport's accept() call fail for some established connections (the Transport trait permits it; the TCP
+    /// transport never does): only the capacity accounting of C06 is judged on such histories
+    #[serde(default)]
+    pub accept_faults: bool,
 }
 
 pub fn op_strategy(adversarial: bool, inbound_weight: u32) -> impl Strategy<Value = Op> {
@@ -151,7 +155,7 @@ pub fn history_strategy(max_ops: usize, adversarial: bool, inbound_weight: u32, 
         if general { prop::bool::weighted(0.5).boxed() } else { Just(false).boxed() },
         prop::collection::vec(addr_sel_strategy(true), 0..2),
     )
-        .prop_map(|(max_in, max_out, ops, drain, general, listen)| History { max_in, max_out, ops, drain, general, listen })
+        .prop_map(|(max_in, max_out, ops, drain, general, listen)| History { max_in, max_out, ops, drain, general, listen, accept_faults: false })
 }
 
 /// The small-scope space for exhaustive enumeration: two peers with one canonical address each, 14 operations, four limit
@@ -204,7 +208,7 @@ pub fn small_history(index: u64) -> History {
         _ => (Some(1), None),
     };
     let drain = if cfg % 2 == 0 { vec![(0u16, 0u8); 12] } else { vec![(0u16, 1u8); 12] };
-    History { max_in, max_out, ops, drain, general: false, listen: Vec::new() }
+    History { max_in, max_out, ops, drain, general: false, listen: Vec::new(), accept_faults: false }
 }
 
 #[derive(Debug, Clone)]
@@ -281,6 +285,10 @@ pub struct World {
     pub direction: BTreeMap<usize, bool>,
     pub step: usize,
     pub general: bool,
+    pub accept_faults: bool,
+    /// connections whose accept() call was made to fail
+    pub accept_failed: usize,
+    accept_fault_armed: bool,
     pub listen: Vec<Multiaddr>,
     pub log: Vec<String>,
     /// ids of own dial attempts whose established connection the manager rejected
@@ -348,6 +356,9 @@ impl World {
             direction: BTreeMap::new(),
             step: 0,
             general: h.general,
+            accept_faults: h.accept_faults,
+            accept_failed: 0,
+            accept_fault_armed: false,
             listen,
             log: Vec::new(),
             own_rejected: Default::default(),
@@ -557,6 +568,10 @@ impl World {
                 let i = pick_idx(*pick, self.obligations.len());
                 let ob = self.obligations.remove(i);
                 self.resolve(ob, *outcome, &mut rec)?;
+                if std::mem::take(&mut self.accept_fault_armed) && !self.m.clear_fail_next_accept_call() {
+                    // the fault was consumed: the accept call for this connection failed
+                    self.accept_failed += 1;
+                }
             }
             Op::Close { pick } => {
                 let live = self.m.live_connections();
@@ -584,6 +599,10 @@ impl World {
                     self.direction.insert(id, false);
                     rec.injected_established = Some((id, peer, false));
                     rec.rescored.push((with_peer(&strip_p2p(&address), peer), 100));
+                    if self.accept_faults && outcome & 0x40 != 0 {
+                        self.m.fail_next_accept_call();
+                        self.accept_fault_armed = true;
+                    }
                     self.m.inject(Inject::Established { peer, address: strip_p2p(&address), id, listener: false });
                 } else {
                     let kind = kinds[(outcome as usize / 2) % 4];
@@ -634,6 +653,10 @@ impl World {
                     self.direction.insert(id, false);
                     rec.injected_established = Some((id, peer, false));
                     rec.rescored.push((with_peer(&strip_p2p(&address), peer), 100));
+                    if self.accept_faults && outcome & 0x40 != 0 {
+                        self.m.fail_next_accept_call();
+                        self.accept_fault_armed = true;
+                    }
                     self.m.inject(Inject::Established { peer, address: strip_p2p(&address), id, listener: false });
                 }
             }
@@ -642,6 +665,10 @@ impl World {
                     let address: Multiaddr = format!("/ip4/52.11.0.{}/tcp/{}", 1 + (id % 200), 40_000 + (id % 1000)).parse().unwrap();
                     self.direction.insert(id, true);
                     rec.injected_established = Some((id, peer, true));
+                    if self.accept_faults && outcome & 0x40 != 0 {
+                        self.m.fail_next_accept_call();
+                        self.accept_fault_armed = true;
+                    }
                     self.m.inject(Inject::Established { peer, address, id, listener: true });
                 }
                 // else: the inbound negotiation fails silently (TCP only logs)
@@ -666,6 +693,9 @@ impl World {
             let i = pick_idx(pick, self.obligations.len());
             let ob = self.obligations.remove(i);
             self.resolve(ob, outcome, &mut rec)?;
+            if std::mem::take(&mut self.accept_fault_armed) && !self.m.clear_fail_next_accept_call() {
+                self.accept_failed += 1;
+            }
             each(self, &rec)?;
         }
         Ok(())
